@@ -440,6 +440,12 @@ Heredocs == <<
     [Function |-> Nd("Name", [Parts |-> Sq(<<NamePartN>>)]), OpenParenthesisTkn |-> Tk("("),
      Args |-> SqS(<<Nd("Argument", [Expr |-> Heredoc("HEREDOC_START", <<HdText>>)]), Nd("Argument", [Expr |-> SimpleVar])>>, "SeparatorTkns", ","),
      CloseParenthesisTkn |-> Tk(")")]),
+  \* __halt_compiler ( ) ; ends the program: everything after the ';' is raw data (glue "P": the payload follows), kept as the
+  \* T_HALT_COMPILER free-floating token of the root's end token.  PHP allows white space and comments between its four tokens.
+  V("stmt+halt", "SEQ", {"toplast"}, "both", 0, FALSE,
+    [A |-> Ch("stmt", 0),
+     B |-> Nd("StmtHaltCompiler", [HaltCompilerTkn |-> Tk("__halt_compiler"), OpenParenthesisTkn |-> Tk("("), CloseParenthesisTkn |-> Tk(")"),
+                                   SemiColonTkn |-> TkG(";", "P")])]),
   \* "?>" ends a statement; inline HTML is a statement of its own; the next PHP token needs a new open tag (glue "O")
   V("closetag+html", "SEQ", {"inner"}, "both", 0, TRUE,
     [A |-> Nd("StmtNop", [SemiColonTkn |-> TkG("?>", "R")]), B |-> Nd("StmtInlineHtml", [InlineHtmlTkn |-> TkG("HTML", "LO"), Value |-> Vl("InlineHtmlTkn")])]),
